@@ -14,6 +14,15 @@
 (*             all per-channel averages in micro-dBm                                                               *)
 (*   sig, tot  per-channel signal / total power (micro-dBm, channel average) after the amplifier and its VOA when   *)
 (*             the design load is propagated through the real elements; NONE when not propagated                   *)
+(* The designed network is a state that lives on (DesignPower.tla: Use, DesignAgain), and so do the clauses: besides *)
+(* the trace observed right after the design, the same OMS is observed again                                        *)
+(*   name~used        after a what-if load heavier than the design load and then the design load have been          *)
+(*                    propagated through the SAME elements: gain, dp, voa are what the network exports (to_json)     *)
+(*                    after that use, sig / tot the powers of this later propagation of the design load;             *)
+(*   name~redesigned  after the same network objects have been designed a second time for the same reference        *)
+(*                    channel: the operator settings (uGain, uDp, uVoa, uVar) are those of the configuration as      *)
+(*                    loaded, not what the amplifier carried when the second design reached it.                      *)
+(* Every clause binds these traces exactly like the first one.                                                      *)
 (* Monitor-shaped: every event is consumed, `viol` accumulates <<step, clause>>; the net offset is carried forward  *)
 (* from the OBSERVED design (re-synchronising after a deviation), so one wrong amplifier is reported once.          *)
 EXTENDS DesignPowerRule, Json, IOUtils, TLC
